@@ -92,15 +92,15 @@ func init() {
 		Explanation: lifeExpl + " C01 decides: prep first/once with the run's own store; exec only after a successful prep or a failed exec, with prep's value; post at most once, only after the exec phase (attempt or fallback) is known to have succeeded, with (store, prep value, that result); returns are (post's action|default, nil) or (\"\", non-nil).",
 		CaseRule:    "an obligation instance is one (abstract path, call site) pair at which the rule was evaluated; distinct = distinct rule@construct keys with at least one instance",
 		Floors: []Floor{{"C01.R1@single|*:cb:Prep", 1, "prep invoke on the single-node path"}, {"C01.R2@single|*:cb:Exec", 1, "exec invoke on the single-node path"},
-			{"C01.R3@single|*:cb:Post", 1, "post invoke on the single-node path"}, {"C01.R5@single|*:return", 1, "returns of the single-node path"},
+			{"C01.R3@single|*:cb:Post", 1, "post invoke on the single-node path"}, {"C01.R5@single|*:return", 1, "returns of the single-node path"}, {"C01.R4@single|*:return", 1, "post not skipped after a successful exec phase"},
 			{"C01.R2@batch|*:cb:Exec", 1, "per-item exec"}, {"C01.R3@batch|*:cb:Post", 1, "batch post"},
 			{"C01.R6@*:delegation", 10, "library phase methods forward positionally"}, {"C01.R7@*:implements-*", 18, "method-set table"}, {"C01.R7@*-resolution", 30, "promoted method resolution"}},
 		Assumptions: commonAssumptions})
-	reg(&Prop{ID: "C02", Units: []string{"run", "loops"}, Technique: "static analysis: scalar-evolution trip-count analysis + path-sensitive retry typestate over go/ssa",
+	reg(&Prop{ID: "C02", Units: []string{"run", "loops", "adapters"}, Technique: "static analysis: scalar-evolution trip-count analysis + path-sensitive retry typestate over go/ssa",
 		Explanation: lifeExpl + " C02 decides: (R1, static arithmetic) every loop that directly contains an exec attempt has a unit-step attempt counter whose exit test, evaluated after attempt j, is equivalent to j < V for one symbolic V, and (R1, path-sensitive half) V is the node's GetMaxRetries() value, or the constant 1 for a node known not to expose retry settings; (R2) exactly one attempt per iteration; (R3) a further attempt only after a known-failed one, and a run fails with an exec error only after the budget test exhausted; (R4) the fallback is invoked at most once, only after exhaustion with the last attempt known failed, on the node being run, with (prep value, that last error), and is not skipped when the node may implement it. Same rules on the single-node path and on the per-item path.",
 		CaseRule:    "an obligation instance is one (abstract path, site) pair or one loop for the static arithmetic rule; distinct = distinct rule@construct keys",
 		Floors: []Floor{{"C02.R1@*:retry-loop", 2, "static trip-count obligations (single-node loop and per-item loop)"}, {"C02.R1@single|*:budget-test", 1, "budget provenance, single"}, {"C02.R1@batch|*:budget-test", 1, "budget provenance, per item"},
-			{"C02.R3@single|*:cb:Exec", 1, "retry precondition"}, {"C02.R4@single|*:cb:ExecFallback", 1, "fallback, single"}, {"C02.R4@batch|*:cb:ExecFallback", 1, "fallback, per item"}, {"C02.R2@*:retry-loop-iteration", 2, "one attempt per iteration"}},
+			{"C02.R3@single|*:cb:Exec", 1, "retry precondition"}, {"C02.R3@CustomNode.Exec:error-checked", 1, "function-style exec reports failures as failures"}, {"C02.R4@single|*:cb:ExecFallback", 1, "fallback, single"}, {"C02.R4@batch|*:cb:ExecFallback", 1, "fallback, per item"}, {"C02.R2@*:retry-loop-iteration", 2, "one attempt per iteration"}},
 		Assumptions: append(append([]string{}, commonAssumptions...), "a budget that changes between two reads of GetMaxRetries() is outside the property (it is read once per run/item)")})
 	reg(&Prop{ID: "C20", Units: []string{"run"}, Technique: "static analysis: path-sensitive wait-event typestate over go/ssa",
 		Explanation: lifeExpl + " C20 decides the structural cause of the timing statement: on every retry path a wait event (select on a timer channel created with the node's GetWait() value) lies between the failed attempt and the next one unless wait<=0 is established on that path; no wait precedes the first attempt or follows the last one (before fallback/post/return/next item); every wait is a select that also receives from ctx.Done(); time.Sleep and bare timer receives are not used. Measured durations are delegated to the time package's contract.",
@@ -206,6 +206,6 @@ func init() {
 	reg(&Prop{ID: "C18", Units: []string{"run"}, Technique: "static analysis: path-sensitive return-predicate (non-empty fact) over go/ssa",
 		Explanation: lifeExpl + " C18 decides: at every nil-error return of Run (single node, batch with items, empty batch) the action term is a non-empty constant or carries the fact != \"\" on that path.",
 		CaseRule:    "an obligation instance is one success-return instance on an abstract path; distinct = distinct return roles",
-		Floors:      []Floor{{"C18.R1@single|*:success-return", 1, "single-node success return"}, {"C18.R1@batch|*:success-return", 2, "batch and empty-batch success returns (one per post call site)"}},
+		Floors:      []Floor{{"C18.R1@single|*:success-return", 1, "single-node success return"}, {"C18.R1@batch|*:success-return", 1, "batch success return"}, {"C18.R1@batch-empty|*:success-return", 1, "empty-batch success return"}},
 		Assumptions: commonAssumptions})
 }
